@@ -121,7 +121,15 @@ func (or *Orchestrator) Service() *Service {
 					wg.Add(1)
 					go func(ss *Service) {
 						defer wg.Done()
-						ec.Add(ss.waitFor(ctx))
+						// wait until the service returns; if the
+						// orchestrator's context ends first, shut
+						// the service down and wait for it, like
+						// the services started below.
+						_ = ss.waitFor(ctx)
+						if ctx.Err() != nil {
+							ss.Close()
+						}
+						ec.Add(ss.Wait())
 					}(s)
 					continue
 				}
